@@ -1,7 +1,9 @@
 (* C01 -- Intrinsic value functions resolve to their CloudFormation-defined value.
-   Statements only; proofs are [exact] of lemmas in Resolver/Spec.v, Resolver/SubFacts.v and Resolver/SubSpec.v. *)
+   Statements only; proofs are [exact] of lemmas in Resolver/Spec.v, Resolver/SubFacts.v, Resolver/SubSpec.v and (the algebraic
+   laws, second half of the file) Resolver/FnAlgebra.v. *)
 From Coq Require Import List Bool NArith ZArith.
-From PV Require Import Base.Str Base.Value Resolver.Consts Resolver.Text Resolver.Resolve Resolver.Spec Resolver.SubFacts Resolver.SubSpec.
+From PV Require Import Base.Str Base.Value Resolver.Consts Resolver.Text Resolver.Resolve Resolver.Spec Resolver.SubFacts Resolver.SubSpec
+  Resolver.Template Resolver.ParamFacts Resolver.FixFacts Resolver.Rendered Robust.Validators Resolver.FnAlgebra.
 Import ListNotations.
 Local Open Scope N_scope.
 
@@ -198,3 +200,460 @@ Proof. vm_compute. repeat split; reflexivity. Qed.
 (* "${${A}" : the open "${" is literal, the placeholder after it is still found *)
 Example C01_ex_open_then_placeholder : sub_tokens [36;123;36;123;65;125] = [TText 36; TText 123; TVar [65]].
 Proof. vm_compute. reflexivity. Qed.
+
+(* ================================================================================================================== *)
+(* ALGEBRAIC LAWS of the value functions (Resolver/FnAlgebra.v).  Laws that are FALSE of the model are stated as
+   [..._refuted] with their witness; each witness was replayed on the library and the library agrees with the model
+   (answers in the header of FnAlgebra.v).  Notation: FJoin d l = {"Fn::Join": [d, l]}, FSplit, FSelect, FFindInMap, FRef,
+   FImport, FBase64, FSub text = {"Fn::Sub": text}, FSubV text vars = {"Fn::Sub": [text, vars]}; ph n = "${n}".
+   Code points: , 44  - 45  0 48  1 49  A 65  a 97  x 120.                                                              *)
+(* ================================================================================================================== *)
+(* Examples use [e1] (FnAlgebra.v): A = "1", B = "${A}", L = ["a", "TRUE", 1, true], N = 7;  Mappings {M: {a: {b: "leaf"}}} *)
+
+(* ---- 1. Fn::Join / Fn::Split ---- *)
+(* on texts: Join d (Split d s) = s, whatever d and s *)
+Theorem C01_join_split_text : forall d s, join d (split d s) = s.
+Proof. exact join_split. Qed.
+Print Assumptions C01_join_split_text.
+Theorem C01_join_split : forall e dl s ds ss,
+  resolve e dl = Ok (VStr ds) -> ds <> [] -> resolve e s = Ok (VStr ss) ->
+  resolve e (FJoin dl (FSplit dl s)) = Ok (VStr ss).
+Proof. exact resolve_join_split. Qed.
+Print Assumptions C01_join_split.
+Example C01_ex_join_split :
+  resolve e1 (VStr [97;97]) = Ok (VStr [97;97]) /\ resolve e1 (VStr [97;97;97;120;97;97]) = Ok (VStr [97;97;97;120;97;97]) /\
+  resolve e1 (FJoin (VStr [97;97]) (FSplit (VStr [97;97]) (VStr [97;97;97;120;97;97]))) = Ok (VStr [97;97;97;120;97;97]).
+Proof. repeat split; vm_compute; reflexivity. Qed.
+(* an empty delimiter is an error (Python: ValueError "empty separator") *)
+Theorem C01_split_empty_delimiter : forall e dl s ss,
+  resolve e dl = Ok (VStr []) -> resolve e s = Ok (VStr ss) -> resolve e (FSplit dl s) = Err EValue.
+Proof. exact resolve_split_empty_delimiter. Qed.
+Print Assumptions C01_split_empty_delimiter.
+
+(* Split d (Join d l) = l: l non-empty, no member contains the FIRST code point c of d = c :: d' *)
+Theorem C01_split_join_text : forall c d' l, l <> [] -> Forall (fun x => ~ In c x) l -> split (c :: d') (join (c :: d') l) = l.
+Proof. exact split_join. Qed.
+Print Assumptions C01_split_join_text.
+Theorem C01_split_join : forall e dl l c d' ls,
+  resolve e dl = Ok (VStr (c :: d')) -> resolve e l = Ok (VList (map VStr ls)) ->
+  ls <> [] -> Forall (fun x => ~ In c x) ls ->
+  resolve e (FSplit dl (FJoin dl l)) = Ok (VList (map VStr ls)).
+Proof. exact resolve_split_join. Qed.
+Print Assumptions C01_split_join.
+Example C01_ex_split_join :
+  let l := VList [FRef (VStr [65]); VStr []; VStr [120]] in
+  resolve e1 (VStr [44]) = Ok (VStr [44]) /\ resolve e1 l = Ok (VList (map VStr [[49]; []; [120]])) /\
+  Forall (fun x => ~ In 44 x) [[49]; []; [120]] /\
+  resolve e1 (FSplit (VStr [44]) (FJoin (VStr [44]) l)) = Ok (VList (map VStr [[49]; []; [120]])).
+Proof. cbv zeta. repeat split; try (vm_compute; reflexivity). repeat constructor; simpl; intuition discriminate. Qed.
+(* for a one-character delimiter that is "no member contains d" ([occurs d x]: d is a substring of x) ... *)
+Theorem C01_split_join_char : forall c l, l <> [] -> Forall (fun x => occurs [c] x = false) l -> split [c] (join [c] l) = l.
+Proof. exact split_join_char. Qed.
+Print Assumptions C01_split_join_char.
+Theorem C01_occurs : forall d s, occurs d s = true <-> exists a b, s = a ++ d ++ b.
+Proof. exact occurs_spec. Qed.
+Print Assumptions C01_occurs.
+(* ... and for longer delimiters that law is FALSE: d = "aa", l = ["a"; "x"] ("a"+"aa"+"x" = "aaax" splits as ["", "ax"]) *)
+Theorem C01_split_join_refuted :
+  exists d l, d <> [] /\ l <> [] /\ Forall (fun x => occurs d x = false) l /\ split d (join d l) <> l.
+Proof. exact split_join_refuted. Qed.
+Print Assumptions C01_split_join_refuted.
+Example C01_ex_split_join_refuted :
+  resolve e1 (FSplit (VStr [97;97]) (FJoin (VStr [97;97]) (VList [VStr [97]; VStr [120]]))) = Ok (VList [VStr []; VStr [97;120]]).
+Proof. vm_compute. reflexivity. Qed.
+(* the empty list is not recovered: Join d [] = "" and Split d "" = [""] *)
+Theorem C01_split_join_nil : forall d, split d (join d []) = [[]].
+Proof. exact split_join_nil. Qed.
+Print Assumptions C01_split_join_nil.
+
+Theorem C01_join_singleton : forall e dl ds x s,
+  resolve e dl = Ok (VStr ds) -> resolve e x = Ok (VStr s) ->
+  resolve e (FJoin dl (VList [x])) = Ok (VStr (if str_eqb s S_NOVALUE then [] else s)).
+Proof. exact resolve_join_singleton. Qed.
+Print Assumptions C01_join_singleton.
+Theorem C01_join_nil : forall e dl ds, resolve e dl = Ok (VStr ds) -> resolve e (FJoin dl (VList [])) = Ok (VStr []).
+Proof. exact resolve_join_nil. Qed.
+Print Assumptions C01_join_nil.
+Example C01_ex_join_singleton_nil :
+  resolve e1 (FJoin (VStr [44]) (VList [FRef (VStr [65])])) = Ok (VStr [49]) /\
+  resolve e1 (FJoin (VStr [44]) (VList [])) = Ok (VStr []).
+Proof. split; vm_compute; reflexivity. Qed.
+
+(* scalars rendered as strings: booleans true / false, integers in decimal, text rendered ([leaf_text]) *)
+Theorem C01_join_scalars : forall e dl ds l ts,
+  resolve e dl = Ok (VStr ds) ->
+  Forall2 (fun v t => leaf_text (params e) v = Some t /\ t <> S_NOVALUE) l ts ->
+  resolve e (FJoin dl (VList l)) = Ok (VStr (join ds ts)).
+Proof. exact resolve_join_scalars. Qed.
+Print Assumptions C01_join_scalars.
+(* [1, true, false, "TRUE", -5] joined by "-"  =  "1-true-false-true--5" *)
+Example C01_ex_join_scalars :
+  Forall2 (fun v t => leaf_text (params e1) v = Some t /\ t <> S_NOVALUE)
+    [VInt 1; VBool true; VBool false; VStr [84;82;85;69]; VInt (-5)] [[49]; S_true; S_false; S_true; [45;53]] /\
+  resolve e1 (FJoin (VStr [45]) (VList [VInt 1; VBool true; VBool false; VStr [84;82;85;69]; VInt (-5)]))
+  = Ok (VStr [49;45;116;114;117;101;45;102;97;108;115;101;45;116;114;117;101;45;45;53]).
+Proof. split; [repeat constructor; try (vm_compute; reflexivity); vm_compute; discriminate | vm_compute; reflexivity]. Qed.
+(* a list / object / null among the resolved members: the model declines (the library interpolates Python's repr) *)
+Theorem C01_join_nested_declined : forall e dl ds l ls,
+  resolve e dl = Ok (VStr ds) -> resolve e l = Ok (VList ls) -> (exists x, In x ls /\ forall s, x <> VStr s) ->
+  resolve e (FJoin dl l) = Err EUndefined.
+Proof. exact resolve_join_nested_declined. Qed.
+Print Assumptions C01_join_nested_declined.
+Example C01_ex_join_nested : resolve e1 (FJoin (VStr [45]) (VList [VStr [97]; VList [VStr [98]; VStr [99]]])) = Err EUndefined.
+Proof. vm_compute. reflexivity. Qed.
+
+(* ---- 2. Fn::Select ---- *)
+Theorem C01_select_nth : forall e i l s z ls,
+  resolve e i = Ok (VStr s) -> parse_int s = Some z -> resolve e l = Ok (VList ls) ->
+  (0 <= z < Z.of_nat (length ls))%Z ->
+  resolve e (FSelect i l) = Ok (nth (Z.to_nat z) ls (VList [])).
+Proof. exact resolve_select_nth. Qed.
+Print Assumptions C01_select_nth.
+Theorem C01_select_out_of_range : forall e i l s z ls,
+  resolve e i = Ok (VStr s) -> parse_int s = Some z -> resolve e l = Ok (VList ls) ->
+  (z < 0 \/ Z.of_nat (length ls) <= z)%Z ->
+  resolve e (FSelect i l) = Ok (VList []).
+Proof. exact resolve_select_out_of_range. Qed.
+Print Assumptions C01_select_out_of_range.
+(* index 1 of the list parameter L = ["a","TRUE",1,true] is "true"; indices -1 and 4 give [] *)
+Example C01_ex_select :
+  resolve e1 (VStr [49]) = Ok (VStr [49]) /\ parse_int [49] = Some 1%Z /\
+  resolve e1 (FRef (VStr [76])) = Ok (VList [VStr [97]; VStr S_true; VStr [49]; VStr S_true]) /\
+  resolve e1 (FSelect (VStr [49]) (FRef (VStr [76]))) = Ok (VStr S_true) /\
+  parse_int [45;49] = Some (-1)%Z /\ resolve e1 (FSelect (VStr [45;49]) (FRef (VStr [76]))) = Ok (VList []) /\
+  resolve e1 (FSelect (VInt 4) (FRef (VStr [76]))) = Ok (VList []).
+Proof. repeat split; vm_compute; reflexivity. Qed.
+(* a NON-NUMERIC index is not "out of range": no empty list; the model declines, the library raises ValueError *)
+Theorem C01_select_non_numeric : forall e i l s ls,
+  resolve e i = Ok (VStr s) -> parse_int s = None -> resolve e l = Ok (VList ls) ->
+  resolve e (FSelect i l) = Err EUndefined.
+Proof. exact resolve_select_non_numeric. Qed.
+Print Assumptions C01_select_non_numeric.
+Example C01_ex_select_non_numeric :
+  parse_int [120] = None /\ resolve e1 (FSelect (VStr [120]) (VList [VStr [97]; VStr [98]])) = Err EUndefined.
+Proof. split; vm_compute; reflexivity. Qed.
+(* the index as a number and as its decimal text are the same; decimal text reads back *)
+Theorem C01_parse_int_roundtrip : forall z, parse_int (str_of_Z z) = Some z.
+Proof. exact parse_int_str_of_Z. Qed.
+Print Assumptions C01_parse_int_roundtrip.
+Theorem C01_select_index_number : forall e z l,
+  resolve e (FSelect (VInt z) l) = resolve e (FSelect (VStr (str_of_Z z)) l).
+Proof. exact resolve_select_index_number. Qed.
+Print Assumptions C01_select_index_number.
+Theorem C01_select_int : forall e z l ls, resolve e l = Ok (VList ls) ->
+  resolve e (FSelect (VInt z) l) =
+  Ok (if (0 <=? z)%Z && (z <? Z.of_nat (length ls))%Z then nth (Z.to_nat z) ls (VList []) else VList []).
+Proof. exact resolve_select_int. Qed.
+Print Assumptions C01_select_int.
+Theorem C01_select_split_join : forall e i s z dl l c d' ls,
+  resolve e i = Ok (VStr s) -> parse_int s = Some z -> (0 <= z < Z.of_nat (length ls))%Z ->
+  resolve e dl = Ok (VStr (c :: d')) -> resolve e l = Ok (VList (map VStr ls)) -> Forall (fun x => ~ In c x) ls ->
+  resolve e (FSelect i (FSplit dl (FJoin dl l))) = Ok (VStr (nth (Z.to_nat z) ls [])).
+Proof. exact resolve_select_split_join. Qed.
+Print Assumptions C01_select_split_join.
+Example C01_ex_select_split_join :
+  resolve e1 (FSelect (VInt 2) (FSplit (VStr [44]) (FJoin (VStr [44]) (VList [FRef (VStr [65]); VStr []; VStr [120]])))) = Ok (VStr [120]).
+Proof. vm_compute. reflexivity. Qed.
+(* FALSE: "Select i [x0; x1; x2] is the value of x_i" -- the list is resolved first and AWS::NoValue members are dropped *)
+Theorem C01_select_literal_refuted : exists e i x0 x1 x2 r1,
+  resolve e x1 = Ok r1 /\ exists r, resolve e (FSelect i (VList [x0; x1; x2])) = Ok r /\ i = VInt 1 /\ r <> r1.
+Proof. exact resolve_select_literal_refuted. Qed.
+Print Assumptions C01_select_literal_refuted.
+(* a text where the list is expected (Ref to an unbound list parameter, Fn::GetAZs, Fn::GetAtt): declined *)
+Theorem C01_select_over_text_declined : forall e i s l t,
+  resolve e i = Ok (VStr s) -> resolve e l = Ok (VStr t) -> resolve e (FSelect i l) = Err EUndefined.
+Proof. exact resolve_select_over_text_declined. Qed.
+Print Assumptions C01_select_over_text_declined.
+Theorem C01_join_over_text_declined : forall e dl ds l t,
+  resolve e dl = Ok (VStr ds) -> resolve e l = Ok (VStr t) -> resolve e (FJoin dl l) = Err EUndefined.
+Proof. exact resolve_join_over_text_declined. Qed.
+Print Assumptions C01_join_over_text_declined.
+Example C01_ex_over_text :
+  resolve e1 (VDict [(K_GetAZs, VStr [])]) = Ok (VStr S_GETAZS) /\
+  resolve e1 (FSelect (VInt 0) (VDict [(K_GetAZs, VStr [])])) = Err EUndefined /\
+  resolve e1 (FJoin (VStr [44]) (FRef (VStr [90]))) = Err EUndefined.
+Proof. repeat split; vm_compute; reflexivity. Qed.
+
+(* ---- 3. Fn::Sub ---- *)
+(* no "${" anywhere: the text AS IT IS -- the Fn::Sub text is not rendered (no lower-casing, no SSM lookup) *)
+Theorem C01_sub_no_placeholder : forall e text,
+  (forall a u, text <> a ++ 36 :: 123 :: u) -> resolve e (FSub text) = Ok (VStr text).
+Proof. exact resolve_sub_no_placeholder. Qed.
+Print Assumptions C01_sub_no_placeholder.
+Theorem C01_sub_text_not_rendered : exists text,
+  (forall a u, text <> a ++ 36 :: 123 :: u) /\ resolve e_nil (FSub text) <> resolve e_nil (VStr text).
+Proof. exact sub_text_not_rendered. Qed.
+Print Assumptions C01_sub_text_not_rendered.
+(* "$ {x}" and "TRUE": unchanged; the literal "TRUE" is "true" *)
+Example C01_ex_sub_no_placeholder :
+  resolve e1 (FSub [36;32;123;120;125]) = Ok (VStr [36;32;123;120;125]) /\
+  resolve e1 (FSub [84;82;85;69]) = Ok (VStr [84;82;85;69]) /\ resolve e1 (VStr [84;82;85;69]) = Ok (VStr S_true).
+Proof. repeat split; vm_compute; reflexivity. Qed.
+Theorem C01_sub_empty_map : forall e text, resolve e (FSubV text (VDict [])) = resolve e (FSub text).
+Proof. exact resolve_sub_empty_map. Qed.
+Print Assumptions C01_sub_empty_map.
+Theorem C01_sub_adjacent : forall e custom a b ra rb, valid_name a -> valid_name b ->
+  render_var e custom a = Ok ra -> render_var e custom b = Ok rb ->
+  do_sub e (ph a ++ ph b) custom = Ok (VStr (ra ++ rb)).
+Proof. exact do_sub_adjacent. Qed.
+Print Assumptions C01_sub_adjacent.
+(* exactly once: pre "${n}" post --> (pre) (value of n, verbatim) (post) *)
+Theorem C01_sub_value_verbatim : forall e custom pre n post a s c, valid_name n ->
+  do_sub e pre custom = Ok (VStr a) -> render_var e custom n = Ok s -> do_sub e post custom = Ok (VStr c) ->
+  do_sub e (pre ++ ph n ++ post) custom = Ok (VStr (a ++ s ++ c)).
+Proof. exact do_sub_value_verbatim. Qed.
+Print Assumptions C01_sub_value_verbatim.
+Theorem C01_sub_bang_literal : forall e custom n, valid_name n -> do_sub e (ph_bang n) custom = Ok (VStr (ph n)).
+Proof. exact do_sub_bang_literal. Qed.
+Print Assumptions C01_sub_bang_literal.
+(* "${B}${A}" with B = "${A}", A = "1" is "${A}1": B's value is inserted once and not scanned; "${!A}" is "${A}" *)
+Example C01_ex_sub_adjacent :
+  valid_name [66] /\ valid_name [65] /\ render_var e1 [] [66] = Ok [36;123;65;125] /\ render_var e1 [] [65] = Ok [49] /\
+  resolve e1 (FSub (ph [66] ++ ph [65])) = Ok (VStr [36;123;65;125;49]) /\
+  resolve e1 (FSub (ph_bang [65])) = Ok (VStr (ph [65])).
+Proof. repeat split; try discriminate; vm_compute; reflexivity. Qed.
+(* an UNBOUND variable stays as written; it does NOT become the UNDEFINED_PARAM_ text that Ref gives *)
+Theorem C01_sub_unbound_as_written : forall e custom n, valid_name n ->
+  lookup n custom = None -> lookup n (params e) = None -> do_sub e (ph n) custom = Ok (VStr (ph n)).
+Proof. exact do_sub_unbound. Qed.
+Print Assumptions C01_sub_unbound_as_written.
+Theorem C01_sub_unbound_is_not_undefined_param : exists n, valid_name n /\
+  resolve e_nil (FRef (VStr n)) = Ok (VStr (undefined_param n)) /\
+  resolve e_nil (FSub (ph n)) = Ok (VStr (ph n)) /\ ph n <> undefined_param n.
+Proof. exact sub_unbound_is_not_undefined_param. Qed.
+Print Assumptions C01_sub_unbound_is_not_undefined_param.
+(* what a variable inserts *)
+Theorem C01_sub_var_scalar : forall e custom n x t,
+  var_value e custom n = Some x -> leaf_text (params e) x = Some t -> render_var e custom n = Ok t.
+Proof. exact render_var_scalar. Qed.
+Print Assumptions C01_sub_var_scalar.
+Theorem C01_sub_var_container_declined : forall e custom n x,
+  var_value e custom n = Some x -> leaf_text (params e) x = None -> is_ok (render_var e custom n) = false.
+Proof. exact render_var_container_declined. Qed.
+Print Assumptions C01_sub_var_container_declined.
+(* N = 7 inserts "7", a local variable true inserts "true", the list parameter L is declined *)
+Example C01_ex_sub_var :
+  var_value e1 [] [78] = Some (VInt 7) /\ resolve e1 (FSub (ph [78])) = Ok (VStr [55]) /\
+  resolve e1 (FSubV (ph [86]) (VDict [([86], VBool true)])) = Ok (VStr S_true) /\
+  leaf_text (params e1) (VList [VStr [97]; VStr [84;82;85;69]; VInt 1; VBool true]) = None /\
+  resolve e1 (FSub (ph [76])) = Err EUndefined.
+Proof. repeat split; vm_compute; reflexivity. Qed.
+(* ${n} is Ref n -- for a bound, text-valued parameter whose name rendering leaves alone *)
+Theorem C01_sub_is_ref : forall e n x s, valid_name n -> plain_text n = true ->
+  lookup n (params e) = Some x -> normalize (params e) x = Ok (VStr s) ->
+  resolve e (FSub (ph n)) = resolve e (FRef (VStr n)).
+Proof. exact sub_is_ref. Qed.
+Print Assumptions C01_sub_is_ref.
+Example C01_ex_sub_is_ref :
+  valid_name [65] /\ plain_text [65] = true /\ lookup [65] (params e1) = Some (VStr [49]) /\
+  normalize (params e1) (VStr [49]) = Ok (VStr [49]) /\ resolve e1 (FSub (ph [65])) = Ok (VStr [49]).
+Proof. repeat split; try discriminate; vm_compute; reflexivity. Qed.
+
+(* ---- 4. Ref / Fn::ImportValue ---- *)
+(* the NAME is a literal like any other: it is rendered, and the rendered name is looked up *)
+Theorem C01_ref_literal : forall e p,
+  resolve e (FRef (VStr p)) =
+  match lookup (render_str (params e) p) (params e) with
+  | Some x => normalize (params e) x
+  | None => Ok (VStr (undefined_param (render_str (params e) p)))
+  end.
+Proof. exact resolve_ref_literal. Qed.
+Print Assumptions C01_ref_literal.
+Theorem C01_import_is_ref : forall e b, resolve e (FImport b) = resolve e (FRef b).
+Proof. exact resolve_import_is_ref. Qed.
+Print Assumptions C01_import_is_ref.
+Theorem C01_ref_plain : forall e p, plain_text p = true ->
+  resolve e (FRef (VStr p)) =
+  match lookup p (params e) with Some x => normalize (params e) x | None => Ok (VStr (undefined_param p)) end.
+Proof. exact resolve_ref_plain. Qed.
+Print Assumptions C01_ref_plain.
+Theorem C01_ref_list : forall e p l ts, plain_text p = true -> lookup p (params e) = Some (VList l) ->
+  Forall2 (fun v t => leaf_text (params e) v = Some t /\ t <> S_NOVALUE) l ts ->
+  resolve e (FRef (VStr p)) = Ok (VList (map VStr ts)).
+Proof. exact resolve_ref_list. Qed.
+Print Assumptions C01_ref_list.
+Example C01_ex_ref_list :
+  plain_text [76] = true /\
+  Forall2 (fun v t => leaf_text (params e1) v = Some t /\ t <> S_NOVALUE)
+    [VStr [97]; VStr [84;82;85;69]; VInt 1; VBool true] [[97]; S_true; [49]; S_true] /\
+  resolve e1 (FRef (VStr [76])) = Ok (VList (map VStr [[97]; S_true; [49]; S_true])) /\
+  resolve e1 (FRef (VStr [90])) = Ok (VStr (undefined_param [90])).
+Proof.
+  split; [vm_compute; reflexivity|]. split; [repeat constructor; try (vm_compute; reflexivity); vm_compute; discriminate|].
+  split; vm_compute; reflexivity.
+Qed.
+(* FALSE for a name that rendering rewrites: the parameter "True" is bound, Ref "True" is UNDEFINED_PARAM_true, ${True} finds it *)
+Theorem C01_ref_boolean_name_refuted :
+  lookup s_True (params e_True) = Some (VStr [118]) /\
+  resolve e_True (FRef (VStr s_True)) = Ok (VStr (undefined_param (lower s_True))) /\
+  resolve e_True (FSub (ph s_True)) = Ok (VStr [118]).
+Proof. exact ref_boolean_name_refuted. Qed.
+Print Assumptions C01_ref_boolean_name_refuted.
+(* a pseudo parameter is overridden by a supplied value of the same name (binding: C04_precedence) *)
+Theorem C01_ref_supplied_overrides_pseudo : forall pseudo decls extra ps maps cs k v w,
+  bind_params pseudo decls extra = Ok ps -> NoDup (keys decls) -> plain_text k = true ->
+  lookup k decls = None -> lookup k pseudo = Some w -> lookup k extra = Some v ->
+  resolve {| params := ps; mappings := maps; conds := cs |} (FRef (VStr k)) = normalize ps v.
+Proof. exact ref_supplied_overrides_pseudo. Qed.
+Print Assumptions C01_ref_supplied_overrides_pseudo.
+Example C01_ex_ref_overrides_pseudo :
+  let pseudo := [([82], VStr [112])] in let extra := [([82], VStr [120])] in
+  bind_params pseudo [] extra = Ok (extra ++ pseudo) /\ plain_text [82] = true /\
+  resolve {| params := extra ++ pseudo; mappings := []; conds := fun _ => Ok false |} (FRef (VStr [82])) = Ok (VStr [120]).
+Proof. cbv zeta. repeat split; vm_compute; reflexivity. Qed.
+
+(* ---- 5. Fn::FindInMap ---- *)
+Theorem C01_findinmap_text : forall m k1 k2,
+  undefined_mapping m k1 k2 = S_UNDEF_MAPPING ++ m ++ [95] ++ k1 ++ [95] ++ k2.
+Proof. exact undefined_mapping_text. Qed.
+Print Assumptions C01_findinmap_text.
+(* map name and keys are resolved first; the answer is the leaf AS WRITTEN in the mapping, or the placeholder text built from
+   the RESOLVED name and keys *)
+Theorem C01_findinmap_leaf : forall e m k1 k2 ms s1 s2, mappings_wf e ->
+  resolve e m = Ok (VStr ms) -> resolve e k1 = Ok (VStr s1) -> resolve e k2 = Ok (VStr s2) ->
+  resolve e (FFindInMap m k1 k2) =
+  Ok (match mapping_leaf e ms s1 s2 with Some leaf => leaf | None => VStr (undefined_mapping ms s1 s2) end).
+Proof. exact resolve_find_in_map_leaf. Qed.
+Print Assumptions C01_findinmap_leaf.
+Theorem C01_findinmap_missing : forall e m k1 k2 ms s1 s2,
+  resolve e m = Ok (VStr ms) -> resolve e k1 = Ok (VStr s1) -> resolve e k2 = Ok (VStr s2) ->
+  lookup ms (mappings e) = None
+  \/ (exists top, lookup ms (mappings e) = Some (VDict top) /\
+        (lookup s1 top = None
+         \/ exists snd_, lookup s1 top = Some (VDict snd_) /\ (lookup s2 snd_ = None \/ lookup s2 snd_ = Some VNull))) ->
+  resolve e (FFindInMap m k1 k2) = Ok (VStr (undefined_mapping ms s1 s2)).
+Proof. exact resolve_find_in_map_missing. Qed.
+Print Assumptions C01_findinmap_missing.
+Theorem C01_findinmap_leaf_verbatim : forall e ms s1 s2 top snd_ leaf,
+  lookup ms (mappings e) = Some (VDict top) -> lookup s1 top = Some (VDict snd_) -> lookup s2 snd_ = Some leaf ->
+  leaf <> VNull -> do_find_in_map e (VStr ms) (VStr s1) (VStr s2) = Ok leaf.
+Proof. exact do_find_in_map_leaf_verbatim. Qed.
+Print Assumptions C01_findinmap_leaf_verbatim.
+(* keys given by Ref / Join: M[a][b] = "leaf"; a missing second-level key gives UNDEFINED_MAPPING_M_a_1 *)
+Example C01_ex_findinmap :
+  mappings_wf e1 /\
+  resolve e1 (FFindInMap (VStr [77]) (FJoin (VStr []) (VList [VStr [97]])) (VStr [98])) = Ok (VStr [108;101;97;102]) /\
+  resolve e1 (FFindInMap (VStr [77]) (VStr [97]) (FRef (VStr [65]))) = Ok (VStr (undefined_mapping [77] [97] [49])) /\
+  undefined_mapping [77] [97] [49] = S_UNDEF_MAPPING ++ [77;95;97;95;49].
+Proof. split; [exact e1_mappings_wf|]. repeat split; vm_compute; reflexivity. Qed.
+(* FALSE: (a) "the result is rendered" -- a leaf "True" / 0 / false comes out as written (known finding F14b) *)
+Theorem C01_findinmap_unrendered_refuted :
+  resolve e_map (FFindInMap (VStr [77]) (VStr [97]) (VStr [84])) = Ok (VStr s_True) /\
+  rendered (params e_map) (VStr s_True) = false /\
+  resolve e_map (FFindInMap (VStr [77]) (VStr [97]) (VStr [110])) = Ok (VInt 0) /\
+  resolve e_map (FFindInMap (VStr [77]) (VStr [97]) (VStr [102])) = Ok (VBool false).
+Proof. exact find_in_map_unrendered_refuted. Qed.
+Print Assumptions C01_findinmap_unrendered_refuted.
+(* FALSE: (b) "a key is looked up as written" -- Mappings {M: {True: {k: yes}}}: the key "True", literal or through
+   Ref P with P = "True", is rendered to "true" and misses the mapping's "True" *)
+Theorem C01_findinmap_literal_key_refuted :
+  mapping_leaf e_map [77] s_True [107] = Some (VStr [121;101;115]) /\
+  resolve e_map (FFindInMap (VStr [77]) (VStr s_True) (VStr [107])) = Ok (VStr (undefined_mapping [77] (lower s_True) [107])) /\
+  resolve e_map (FFindInMap (VStr [77]) (FRef (VStr [80])) (VStr [107])) = Ok (VStr (undefined_mapping [77] (lower s_True) [107])).
+Proof. exact find_in_map_literal_key_refuted. Qed.
+Print Assumptions C01_findinmap_literal_key_refuted.
+
+(* ---- 6. Fn::Base64 ---- *)
+Theorem C01_base64_text : forall e b s, resolve e b = Ok (VStr s) -> resolve e (FBase64 b) = Ok (VStr (b64encode (utf8 s))).
+Proof. exact resolve_base64_text. Qed.
+Print Assumptions C01_base64_text.
+Theorem C01_base64_non_text : forall e b r,
+  resolve e b = Ok r -> (forall s, r <> VStr s) -> resolve e (FBase64 b) = Err EUndefined.
+Proof. exact resolve_base64_non_text. Qed.
+Print Assumptions C01_base64_non_text.
+(* the encoder is inverted by the model of Python's base64.b64decode (Robust/Validators.v) on every byte string *)
+Theorem C01_b64_roundtrip : forall bs, Forall (fun b => b < 256) bs -> b64decode (b64encode bs) = Some bs.
+Proof. exact b64_roundtrip. Qed.
+Print Assumptions C01_b64_roundtrip.
+Theorem C01_base64_roundtrip : forall e b s, Forall (fun c => c < 1114112) s -> resolve e b = Ok (VStr s) ->
+  exists t, resolve e (FBase64 b) = Ok (VStr t) /\ b64decode t = Some (utf8 s).
+Proof. exact resolve_base64_roundtrip. Qed.
+Print Assumptions C01_base64_roundtrip.
+(* base64("a<e-acute>") = "YcOp"; of the number 1 = base64("1") = "MQ=="; of a list: declined *)
+Example C01_ex_base64 :
+  resolve e1 (FBase64 (VStr [97;233])) = Ok (VStr [89;99;79;112]) /\ b64decode [89;99;79;112] = Some (utf8 [97;233]) /\
+  resolve e1 (FBase64 (VInt 1)) = Ok (VStr [77;81;61;61]) /\
+  resolve e1 (FBase64 (VList [VStr [97]])) = Err EUndefined.
+Proof. repeat split; vm_compute; reflexivity. Qed.
+
+(* ---- 7. Composition ---- *)
+(* [Cong e a b] (FnAlgebra.v): b is a with any number of sub-expressions, at positions whose value is obtained by resolving
+   them, replaced by expressions with the same resolution.  Such a replacement does not change the result. *)
+Theorem C01_congruence : forall e a b, Cong e a b -> resolve e a = resolve e b.
+Proof. exact resolve_congruence. Qed.
+Print Assumptions C01_congruence.
+(* resolving in place: a sub-expression may be replaced by its own value when that value is rendered and function-free
+   (then it is a fixed point: C03_fixed_point) *)
+Theorem C01_resolved_value_in_place : forall e f r,
+  resolve e f = Ok r -> no_fn_dict r = true -> rendered (params e) r = true -> Cong e f r.
+Proof. exact cong_resolved_value. Qed.
+Print Assumptions C01_resolved_value_in_place.
+(* ctx1 h = {"k": [Join ["-", [h, "x"]], "y"]}: Ref A replaced by Sub "${A}" and by its value "1" *)
+Example C01_ex_congruence :
+  Cong e1 (ctx1 (FRef (VStr [65]))) (ctx1 (FSub (ph [65]))) /\ Cong e1 (ctx1 (FRef (VStr [65]))) (ctx1 (VStr [49])) /\
+  resolve e1 (ctx1 (FRef (VStr [65]))) = Ok (VDict [([107], VList [VStr [49;45;120]; VStr [121]])]) /\
+  resolve e1 (ctx1 (VStr [49])) = Ok (VDict [([107], VList [VStr [49;45;120]; VStr [121]])]).
+Proof.
+  split; [apply ctx1_cong; apply Cg_same; vm_compute; reflexivity|].
+  split; [apply ctx1_cong; apply cong_resolved_value; vm_compute; reflexivity | split; vm_compute; reflexivity].
+Qed.
+(* FALSE without "rendered": Join ["", ["TR","UE"]] = "TRUE"; inside Join ["-", [_, "x"]] it gives "TRUE-x", the literal "TRUE" gives "true-x" *)
+Theorem C01_in_place_refuted : exists f r,
+  resolve e_nil f = Ok r /\
+  resolve e_nil (FJoin (VStr [45]) (VList [f; VStr [120]])) <> resolve e_nil (FJoin (VStr [45]) (VList [r; VStr [120]])).
+Proof. exact resolve_in_place_refuted. Qed.
+Print Assumptions C01_in_place_refuted.
+(* FALSE at the positions read as SYNTAX (the Fn::Sub text, the argument list of Fn::Join, the condition name of Fn::If) *)
+Theorem C01_congruence_syntax_refuted :
+  (exists a b, resolve e_nil a = resolve e_nil b /\
+     resolve e_nil (VDict [(K_Sub, VList [a; VDict []])]) <> resolve e_nil (VDict [(K_Sub, VList [b; VDict []])])) /\
+  (exists a b, resolve e_nil a = resolve e_nil b /\
+     resolve e_nil (VDict [(K_Join, a)]) <> resolve e_nil (VDict [(K_Join, b)])) /\
+  (exists a b, resolve e_nil a = resolve e_nil b /\
+     resolve e_nil (VDict [(K_If, VList [a; VStr [116]; VStr [102]])]) <> resolve e_nil (VDict [(K_If, VList [b; VStr [116]; VStr [102]])])).
+Proof. exact congruence_syntax_refuted. Qed.
+Print Assumptions C01_congruence_syntax_refuted.
+
+(* ---- 8. Rendering ---- *)
+(* a text is returned as it is, except: any capitalisation of true / false is lower-cased, and a text that STARTS with an SSM
+   reference {{resolve:ssm:NAME:VERSION}} is replaced by the non-empty text bound to NAME:VERSION (else UNDEFINED_PARAM_NAME:VERSION) *)
+Theorem C01_render_cases : forall ps s,
+  render_str ps s =
+  match ssm_key s with
+  | Some key => match lookup key ps with Some (VStr (c :: r)) => c :: r | _ => undefined_param key end
+  | None => if str_eqb (lower s) S_true || str_eqb (lower s) S_false then lower s else s
+  end.
+Proof. exact render_str_cases. Qed.
+Print Assumptions C01_render_cases.
+Theorem C01_render_other : forall ps s, ssm_key s = None -> lower s <> S_true -> lower s <> S_false -> render_str ps s = s.
+Proof. exact render_str_other. Qed.
+Print Assumptions C01_render_other.
+Theorem C01_render_boolean : forall ps s, ssm_key s = None -> lower s = S_true \/ lower s = S_false -> render_str ps s = lower s.
+Proof. exact render_str_boolean. Qed.
+Print Assumptions C01_render_boolean.
+(* rendering a parameter value twice is rendering it once -- when the texts an SSM reference can fetch are themselves rendered
+   ([ssm_values_fixed]), typed atoms have rendered texts ([atoms_fixed]) and pruning AWS::NoValue left no function object *)
+Theorem C01_render_idempotent : forall ps v r, ssm_values_fixed ps -> atoms_fixed ps v = true ->
+  normalize ps v = Ok r -> no_fn_dict r = true -> normalize ps r = Ok r.
+Proof. exact normalize_idempotent. Qed.
+Print Assumptions C01_render_idempotent.
+Example C01_ex_render_idempotent :
+  let v := VList [VStr [97]; VStr [84;82;85;69]; VInt 1; VBool true] in
+  ssm_values_fixed (params e1) /\ atoms_fixed (params e1) v = true /\
+  normalize (params e1) v = Ok (VList [VStr [97]; VStr S_true; VStr [49]; VStr S_true]) /\
+  no_fn_dict (VList [VStr [97]; VStr S_true; VStr [49]; VStr S_true]) = true.
+Proof. cbv zeta. split; [apply params_rendered_ssm; vm_compute; reflexivity|]. repeat split; vm_compute; reflexivity. Qed.
+Theorem C01_render_idempotent_refuted : exists ps s,
+  render_str ps (render_str ps s) <> render_str ps s /\
+  exists r r2, normalize ps (VStr s) = Ok r /\ normalize ps r = Ok r2 /\ r2 <> r.
+Proof. exact render_idempotent_refuted. Qed.
+Print Assumptions C01_render_idempotent_refuted.
+(* 1 and "1" alike, true / "True" / "TRUE" alike, 1 and true apart *)
+Theorem C01_render_identifications : forall ps,
+  normalize ps (VInt 1) = normalize ps (VStr [49]) /\
+  normalize ps (VBool true) = normalize ps (VStr s_True) /\
+  normalize ps (VBool true) = normalize ps (VStr [84;82;85;69]) /\
+  normalize ps (VInt 1) <> normalize ps (VBool true) /\
+  normalize ps (VInt 0) <> normalize ps (VBool false).
+Proof. exact render_identifications. Qed.
+Print Assumptions C01_render_identifications.
